@@ -22,10 +22,11 @@ META = {
                      'C11 data-race freedom as such', 'more than 3 agents / more than 1 spurious wake-up per waiter'],
 }
 
-US = 'harness.0:34,harness.1:4,harness.2:4,harness.3:5,harness.4:4,harness.5:4,cell.0:9,pthread_cond_signal.0:4,pthread_cond_destroy.0:4,blocked_on.0:4,' \
+US = 'harness.0:34,harness.1:5,harness.2:5,harness.3:5,harness.4:5,harness.5:5,harness.6:5,harness.7:5,block.0:4,run_wait.0:4,cell.0:9,pthread_cond_signal.0:4,pthread_cond_destroy.0:4,blocked_on.0:4,' \
      'wasmMemoryAtomicWait.0:3,wasmMemoryAtomicWait.1:3,wasmMemoryAtomicNotify.0:4,mapGet.0:3,mapRemove.0:3'
 SCEN = [(0, 2, 2, 'W+N', ['end', 'woken']), (1, 2, 2, 'W(timed)+N', ['end', 'woken', 'timed out']), (3, 3, 2, 'W+N+N', ['end', 'woken']),
-        (4, 3, 3, 'W(addr0)+W(addr16 same bucket)+N', ['end', 'woken']), (2, 3, 3, 'W+W+N', ['end', 'woken']), (5, 3, 3, 'W(timed)+W+N', ['end', 'woken', 'timed out'])]
+        (4, 3, 3, 'W(addr0)+W(addr16 same bucket)+N', ['end', 'woken']), (2, 3, 3, 'W+W+N', ['end', 'woken']), (5, 3, 3, 'W(timed)+W+N', ['end', 'woken', 'timed out']),
+        (6, 2, 3, 'W + (store;notify), every lock request is a yield point', ['end', 'woken']), (7, 3, 4, 'W+W + (store;notify), every lock request is a yield point', ['end', 'woken'])]
 
 
 def futex_job(sc, na, rec, desc, wit, buckets=4, timeout=900):
@@ -40,7 +41,7 @@ def futex_job(sc, na, rec, desc, wit, buckets=4, timeout=900):
 
 def make_jobs(ctx):
     jobs = []
-    scen = SCEN[:5] if ctx.quick else SCEN
+    scen = (SCEN[:5] + [SCEN[6]]) if ctx.quick else SCEN
     for (sc, na, rec, desc, wit) in scen:
         jobs.append(futex_job(sc, na, rec, desc, wit, timeout=300 if ctx.quick else 1200))
     jobs.append(futex_job(0, 2, 2, 'W+N with the unhooked 1024 buckets', ['end', 'woken'], buckets=0, timeout=300 if ctx.quick else 1200))
